@@ -374,6 +374,40 @@ CATALOGUE['C19'] += [
   (F, 'R-MODSTATE', _FFI, ("class ffi1001(PseudoNetCDFFile):", "        lastattr = None\n        PseudoNetCDFFile.__init__(self)"), ("_seen = []\n\n\nclass ffi1001(PseudoNetCDFFile):", "        lastattr = None\n        _seen.append(path)\n        PseudoNetCDFFile.__init__(self)")),
 ]
 
+# ---- the three properties claimed at the level of structural necessary conditions
+_UM = 'camxfiles/uamiv/Memmap.py'
+_LM = 'camxfiles/lateral_boundary/Memmap.py'
+CATALOGUE['C03'] = [
+  (F, 'R-KEEPDIMS', _F, "                        newvals = getattr(newvals, dfunc)(\n                            axis=di, keepdims=True)", "                        newvals = getattr(newvals, dfunc)(axis=di)"),
+  (F, 'R-KEEPDIMS', _F, "                        newvals = getattr(newvals, dfunc)(\n                            axis=di, keepdims=True)", "                        newvals = getattr(newvals, dfunc)(\n                            axis=0, keepdims=True)"),
+  (F, 'R-AXISOFVAR', _F, "                        newvals = np.apply_along_axis(dfunc, di, newvals)", "                        newvals = np.apply_along_axis(dfunc, di, varo[...])"),
+  (F, 'R-MASKKEEP', _F, "            newvals = varo[...]\n            dik = list(enumerate(vdims))", "            newvals = np.asarray(varo[...])\n            dik = list(enumerate(vdims))"),
+  (F, 'R-DIMLENOUT', _F, "                    newdl = getattr(dvar[...], df)(keepdims=True).size", "                    newdl = 1"),
+  (F, 'R-UNTOUCHED', _F, "            newvaro = outf.copyVariable(varo, key=vark, withdata=False)\n            newvaro[...] = newvals\n        if verbose > 0:\n            print()\n\n        return outf", "            if any(dk in dimfuncs for dk in vdims):\n                newvaro = outf.copyVariable(varo, key=vark, withdata=False)\n                newvaro[...] = newvals\n        if verbose > 0:\n            print()\n\n        return outf"),
+  (S, None, _F, "                        newvals = getattr(newvals, dfunc)(\n                            axis=di, keepdims=True)", "                        newvals = getattr(newvals, dfunc)(\n                            keepdims=True, axis=di)"),
+  (S, None, _F, "            dik = list(enumerate(vdims))\n            for di, dk in dik[::-1]:", "            dik = list(enumerate(vdims))\n            for di, dk in dik:"),
+]
+CATALOGUE['C14'] = [
+  (F, 'R-BLOCKSIZE', _UM, "        spc_1_lay_block_size = 13 + nx * ny", "        spc_1_lay_block_size = 12 + nx * ny"),
+  (F, 'R-BLOCKSIZE', _LM, "        date_time_block_size = 6", "        date_time_block_size = 4"),
+  (F, 'R-WHOLEBLOCKS', 'camxfiles/temperature/Memmap.py', "        records = self.__memmap.size // record_length", "        records = int(np.ceil(self.__memmap.size / record_length))"),
+  (F, 'R-PARTIALRAISE', _UM, "        if int(ntimes) != ntimes:\n            raise ValueError(", "        if int(ntimes) != ntimes:\n            warn("),
+  (F, 'R-MAPCOUNT', 'geoschemfiles/_bpch.py', "                             offset=_general_header_type.itemsize, mode=mode,\n                             shape=(itemcount,))", "                             offset=_general_header_type.itemsize, mode=mode)"),
+  (F, 'R-WINDCOUNT', 'camxfiles/wind/Memmap.py', "        step_size = (self.__time_hdr_fmts_size + 8 + record * 2 * lays +\n                     self.__dummy_length * 4)", "        step_size = (self.__time_hdr_fmts_size + 8 + record * 2 * lays)"),
+  (S, None, _UM, "        spc_1_lay_block_size = 13 + nx * ny", "        spc_1_lay_block_size = nx * ny + 13"),
+  (S, None, _LM, "        ntimes = float(size - offset) // 4. // data_block_size", "        ntimes = (size - offset) // 4 // data_block_size"),
+]
+CATALOGUE['C17'] = [
+  (F, 'R-PARTUNITY', 'coordutil.py', "        weights /= weights.sum(0)", "        weights /= weights.sum(1)[:, None]"),
+  (F, 'R-PARTUNITY', 'coordutil.py', "        weights = np.maximum(0, weights)\n        weights /= weights.sum(0)", "        weights /= weights.sum(0)\n        weights = np.maximum(0, weights)"),
+  (F, 'R-PARTUNITY', 'coordutil.py', "        weights = np.maximum(0, weights)\n        weights /= weights.sum(0)", "        weights = np.maximum(0, weights)"),
+  (F, 'R-CONTRACT', _IO, "                newdata = (weights * data[:, None]).sum(0)", "                newdata = (weights * data[:, None]).sum(1)"),
+  (F, 'R-NORMSAME', _IO, "            ndp = fdp.sum(0)", "            ndp = dp_in.sum(0)"),
+  (F, 'R-OVERLAP', 'coordutil.py', "            coeff[lay, li] = myf", "            coeff[li, lay] = myf"),
+  (S, None, 'coordutil.py', "        weights /= weights.sum(0)", "        weights = weights / weights.sum(axis=0)"),
+  (S, None, _IO, "                nvals = (data[:, None] * fdp).sum(0) / ndp", "                nvals = (fdp * data[:, None]).sum(0) / ndp"),
+]
+
 
 def _findings(prop, overlay):
     warnings.simplefilter('ignore')
